@@ -2,6 +2,7 @@ package simnet
 
 import (
 	"context"
+	"errors"
 	"fmt"
 	"net"
 	"os"
@@ -34,6 +35,7 @@ type Net struct {
 	// destination are spaced at least 1/RatePPS apart (they queue, in order).
 	RatePPS  int
 	nextFree map[string]time.Time
+	failTo   map[string]bool
 }
 
 func New() *Net {
@@ -376,8 +378,30 @@ func (p *PacketConn) WriteTo(b []byte, addr net.Addr) (int, error) {
 	}
 	p.Sent++
 	p.mu.Unlock()
+	if p.n.sendFails(addr.String()) {
+		// as sendto() does for a destination the kernel refuses (port 0, a broadcast address without SO_BROADCAST, ...)
+		return 0, &net.OpError{Op: "write", Net: "udp", Addr: addr, Err: errInvalidArgument}
+	}
 	p.n.send(p.local, addr, b)
 	return len(b), nil
+}
+
+var errInvalidArgument = errors.New("sendto: invalid argument")
+
+// FailWritesTo makes every WriteTo towards addr return an error from now on.
+func (n *Net) FailWritesTo(addr string) {
+	n.hubMu.Lock()
+	if n.failTo == nil {
+		n.failTo = map[string]bool{}
+	}
+	n.failTo[addr] = true
+	n.hubMu.Unlock()
+}
+
+func (n *Net) sendFails(addr string) bool {
+	n.hubMu.Lock()
+	defer n.hubMu.Unlock()
+	return n.failTo[addr]
 }
 
 func (p *PacketConn) Close() error {
